@@ -671,6 +671,19 @@ def boundary_histories():
     ]
 
 
+KEEP = os.path.join(common.VERIF, "replays", ".keep")
+
+
+def keep_replay(chk):
+    """check.py builds a Check (which clears replays/C10-*) before it calls replay(); keep a copy
+    that survives so that the printed replay command works"""
+    if chk.violations and chk.violations[-1][0]:
+        src = os.path.join(common.VERIF, chk.violations[-1][0])
+        if os.path.exists(src):
+            os.makedirs(KEEP, exist_ok=True)
+            shutil.copy(src, os.path.join(KEEP, os.path.basename(src)))
+
+
 def process(chk, batches, counters):
     """one chunk: run on the real system (unless already run), ask the model, compare, report"""
     runs, all_lines = [], []
@@ -712,7 +725,8 @@ def process(chk, batches, counters):
                 reported.add(law)
                 small = shrink(w, ops, st["i"], law) if chk.nreplay < 20 else ops[:st["i"] + 1]
                 case = dict(world_key(w), ops=small, stream=stream)
-                chk.report(kind, case, impl=impl, model=model, law=law, classify=classify)
+                if chk.report(kind, case, impl=impl, model=model, law=law, classify=classify) == "violation":
+                    keep_replay(chk)
 
 
 def run(chk):
@@ -721,6 +735,10 @@ def run(chk):
     chk.lean_stage()
     tmp = tempfile.mkdtemp(prefix="c10-")
     counters = {"requests": 0}
+    if os.path.isdir(KEEP):
+        for fn in os.listdir(KEEP):
+            if fn.startswith("C10-"):
+                os.unlink(os.path.join(KEEP, fn))
     try:
         worlds = [World("asyncio", False, tmp), World("blocking", False, tmp), World("asyncio", True, tmp)]
         # the constants the model hard-codes
@@ -781,6 +799,8 @@ def run(chk):
 
 def replay(chk, path):
     logging.disable(logging.CRITICAL)
+    if not os.path.exists(path) and os.path.exists(os.path.join(KEEP, os.path.basename(path))):
+        path = os.path.join(KEEP, os.path.basename(path))
     with open(path) as f:
         r = json.load(f)
     c = r["case"]
